@@ -306,7 +306,7 @@ PROPS["C02"] = {
 
 PROPS["C03"] = {
     "title": "Requests in flight never exceed max-workers and free capacity is used",
-    "units": [{"name": "bubble", "pkg": "libsync", "go": "go1.26.8", "run": "^TestC02(Random|Exhaustive)", "env": {"VERIF_AS": "C03"}, "scale_thorough": 6}],
+    "units": [{"name": "bubble", "pkg": "libsync", "go": "go1.26.8", "run": "^TestC02(Random|Exhaustive|TwoAttacks)", "env": {"VERIF_AS": "C03"}, "scale_thorough": 6}],
     "rule": "Same bubble histories as C02 (exhaustive up to length 4/6/7 over workers 0..3 x max-workers 1..3, random "
             "up to 200 actions with max-workers up to 64, any initial worker count incl. 0 and > max). Non-trivial = a "
             "tick while all max workers were busy (pending hit) or a stop cause with hits in flight; distinct = (config, "
@@ -399,7 +399,8 @@ PROPS["C15"] = {
 PROPS["C05"] = {
     "title": "Sequence order and timestamp order of results agree",
     "units": [{"name": "plain", "pkg": "lib", "run": "^TestC05", "shards_quick": 4, "shards_thorough": 8, "timeout_thorough": 3000},
-              {"name": "race", "pkg": "lib", "run": "^TestC05", "race": True, "shards_quick": 1, "shards_thorough": 4, "env": {"VERIF_SCALE": "0.5"}}],
+              {"name": "race", "pkg": "lib", "run": "^TestC05", "race": True, "shards_quick": 1, "shards_thorough": 4, "env": {"VERIF_SCALE": "0.5"}},
+              {"name": "twoattacks", "pkg": "libsync", "go": "go1.26.8", "run": "^TestC02TwoAttacks", "env": {"VERIF_AS": "C05"}, "shards_quick": 2, "shards_thorough": 8}],
     "rule": "rapid draws stress configurations: 1..512 workers (= max-workers) at unlimited rate, 2000..200000 hits per "
             "attack, fake transport that returns at once / yields / sleeps 0..120 us / hangs every N-th request until a "
             "5..25 ms client timeout cancels it, static or yielding targeter, GOMAXPROCS 2..16; each attack runs on the "
